@@ -125,6 +125,17 @@ func (w *srcW) Fetch(ctx context.Context, d ocispec.Descriptor) (io.ReadCloser, 
 		return nil, err
 	}
 	if f, ok := w.e.take("fetch", n); ok {
+		if f.Phase == "long" {
+			// the fetch succeeds, the stream carries bytes beyond the described size
+			rc, err := w.und.Fetch(ctx, d)
+			if err == nil {
+				w.e.tr.Emit(map[string]any{"e": "fetchE", "n": n, "man": man, "err": false, "why": "longfault"})
+				return struct {
+					io.Reader
+					io.Closer
+				}{io.MultiReader(rc, bytes.NewReader(bytes.Repeat([]byte("Z"), 70000))), rc}, nil
+			}
+		}
 		if f.Phase == "mid" {
 			// the fetch succeeds, the stream breaks after half of the bytes
 			rc, err := w.und.Fetch(ctx, d)
